@@ -346,6 +346,11 @@ def num_variant(v, style):
         return ("-0X%X" % -v) if v < 0 else ("0X%X" % v)
     if style == "lead0":
         return ("-0x%08x" % -v) if v < 0 else ("0x%08x" % v)
+    if style == "dec0":      # a decimal numeral with a leading zero, only where the digits admit no octal reading (seed C19-r8-2)
+        t = str(abs(v))
+        if "8" in t or "9" in t:
+            return ("-0" if v < 0 else "0") + t
+        return str(v)
     if style == "wrap32hex":
         return "0x%X" % (v & 0xFFFFFFFF)
     if style == "wrap32dec":
@@ -453,6 +458,7 @@ REWRITES = {
     "hexadecimal": {"num": "hex"},
     "hexadecimal-0X": {"num": "HEX"},
     "leading-zeros": {"num": "lead0"},
+    "decimal-leading-zero": {"num": "dec0"},
     "minus-one-as-0xFFFFFFFF": {"num32": "wrap32hex"},
     "minus-one-as-4294967295": {"num32": "wrap32dec"},
     "memory-term-order": {"memorder": 1},
